@@ -57,3 +57,55 @@ def nuts_scenarios(seed, n, with_faults=True):
                 sc["faults"].append([rnd.randrange(30, 300), "FatalErr"])
         out.append(sc)
     return out
+
+
+def schedule_scenarios(seed, n):
+    """Chains exercising the warm-up schedule: all six presets, many num_tune, window fractions,
+    frequencies, growth factors, jitter settings and step-size methods."""
+    rnd = random.Random(seed)
+    tunes = [0, 1, 2, 3, 5, 7, 10, 19, 20, 21, 50, 100, 101, 150, 400]
+    presets = NUTS_PRESETS + MCLMC_PRESETS
+    out = []
+    for i in range(n):
+        preset = presets[i % 6]
+        nt = tunes[(i // 6) % len(tunes)] if i < 6 * len(tunes) else rnd.choice(tunes + [rnd.randrange(0, 300)])
+        dim = rnd.choice([1, 2, 3, 5])
+        dens = rnd.choice(DENS)
+        if dens["kind"] in ("Banana", "Funnel") and dim < 2:
+            dim = 2
+        if "mclmc" in preset and dim < 2:
+            dim = 2
+        method = rnd.choice(["DualAverage", "DualAverage", "Adam", {"Fixed": 0.25}])
+        if preset == "flow_mclmc":
+            # step-size adaptation driven by MCLMC acceptance statistics can shrink the step until a draw
+            # takes ~1e6 leapfrogs; keep those runs on a benign target
+            if rnd.random() < 0.6:
+                method = {"Fixed": 0.25}
+            else:
+                dens = DENS[0]
+        sss = {"jitter": rnd.choice([None, 0.0, 0.1]), "adapt_options": {"method": method}}
+        st = {"num_tune": nt, "num_draws": rnd.choice([0, 1, 8, 30]), "seed": rnd.randrange(1 << 30)}
+        if "nuts" in preset:
+            st["maxdepth"] = rnd.choice([3, 5, 8])
+            st["max_energy_error"] = rnd.choice([1000.0, 1000.0, 2.0])
+        else:
+            st["step_size"] = rnd.choice([0.25, 0.5])
+            st["momentum_decoherence_length"] = rnd.choice([1.0, 2.0])
+            st["dynamic_step_size"] = rnd.random() < 0.5
+        if "flow" in preset:
+            st["adapt_options"] = {"step_size_settings": sss,
+                                   "step_size_window": rnd.choice([0.07, 0.25, 0.0, 0.5]),
+                                   "transform_update_freq": rnd.choice([128, 16, 7])}
+        else:
+            ao = {"step_size_settings": sss}
+            if rnd.random() < 0.7:
+                ao.update({"early_window": rnd.choice([0.3, 0.25, 0.5, 0.125, 0.0]),
+                           "step_size_window": rnd.choice([0.15, 0.25, 0.125, 0.0, 0.5]),
+                           "mass_matrix_switch_freq": rnd.choice([80, 10, 5, 3]),
+                           "early_mass_matrix_switch_freq": rnd.choice([10, 3, 1]),
+                           "mass_matrix_update_freq": rnd.choice([1, 1, 5, 20]),
+                           "mass_matrix_window_growth": rnd.choice([1.0, 1.25, 1.5, 2.0])})
+            st["adapt_options"] = ao
+        out.append({"preset": preset, "dim": dim, "density": dens, "settings": st, "seed": rnd.randrange(1 << 30),
+                    "chain": rnd.randrange(3), "init": [rnd.uniform(-1, 1) for _ in range(dim)]})
+    return out
